@@ -323,7 +323,8 @@ def main():
                 traceback.print_exc()
                 continue
             obs = E.obligations
-            st = solve.discharge(E, obs, tier=tier, jobs=args.jobs, log=log, timeout=h.get("timeout_" + tier), inproc_ms=h.get("inproc_ms"))
+            st = solve.discharge(E, obs, tier=tier, jobs=args.jobs, log=log, timeout=h.get("timeout_" + tier), inproc_ms=h.get("inproc_ms"),
+                                 prefs=h["native_feasible"](E) if h.get("native_feasible") else None)
             if not any(o.kind == "reach" for o in obs):
                 inconclusive.append("%s: vacuous - the harness never reached its Reach witness" % h["name"])
             n_triv = sum(1 for o in obs if o.status == "trivial")
@@ -356,11 +357,7 @@ def main():
                         continue
                     seen_keys[key] = 1
                     model0 = o.model
-                    if h.get("native_feasible"):
-                        # re-solve under the side conditions that make the counterexample playable natively
-                        m2 = solve.resolve_with(E, o, h["native_feasible"](E), timeout_ms=120000)
-                        if m2 is not None:
-                            model0 = m2
+                    # (replayability side conditions were already applied when the counterexample was re-solved)
                     ok, detail, cexp = replay_native(prop, h, o, model0, os.path.join(ROOT, "replay", pid))
                     replayed += 1
                     if ok is False and E.ghost.get("tiebreak"):
